@@ -421,11 +421,109 @@ def s06_snappass(ctx):
     return res
 
 
-STREAMS = [s06_insert, s06_snappass, s06_perturbed]
+def s06_generated(ctx):
+    """translator validation: the REGENERATED second snapping stage and repeat-until-stable driver (compiled into gen_c06) vs the real code"""
+    import_fractopo()
+    from shapely.geometry import LineString, Point, box
+
+    import fractopo.branches_and_nodes as ban
+
+    res = StreamResult("S06-generated", rule="regenerated snap_trace_to_another / is_endpoint_close_to_boundary (Lean, compiled, exact geometry for the parameters) vs the real "
+                       "functions on random polylines with ends 0 / 0.5 / 0.95 / 1.05 / 3 x snap from them; the regenerated `while any_changes_applied` driver vs the real loop "
+                       "inside branches_and_nodes with a scripted snap_traces (every change pattern up to allowed_loops + 2 passes); non-trivial = something inserted / raised")
+    if ctx.gen is None:
+        res.note = "gen_c06 not built (a generated module is broken): skipped"
+        res.skipped["generated_driver_not_built"] = 1
+        return res
+    rng = rng_for(ctx.seed, "S06g")
+    reqs, cases = [], []
+    for _ in range(budget(ctx.tier, 200, 4000)):
+        t = rng.choice([0.01, 0.1, 0.001])
+        k = rng.randint(2, 4)
+        pts = [(rng.randint(-32, 32) / 4, rng.randint(-32, 32) / 4)]
+        for _ in range(k - 1):
+            pts.append((pts[-1][0] + rng.randint(-12, 12) / 4, pts[-1][1] + rng.randint(4, 16) / 4))
+        eps = []
+        for _ in range(rng.randint(1, 3)):
+            j = rng.randrange(len(pts) - 1)
+            (ax, ay), (bx, by) = pts[j], pts[j + 1]
+            L = math.hypot(bx - ax, by - ay)
+            u = rng.uniform(0.15, 0.85)
+            g = rng.choice([0.0, 0.5, 0.95, 1.05, 3.0]) * t * rng.choice([1, -1])
+            eps.append((ax + u * (bx - ax) - (by - ay) / L * g, ay + u * (by - ay) + (bx - ax) / L * g))
+        cases.append(("snapto", t, pts, eps))
+        reqs.append(f"snapto t={rat(t)} eps={line(eps)} another={line(pts)}")
+    area = box(-10.0, -10.0, 10.0, 10.0)
+    for _ in range(budget(ctx.tier, 100, 1000)):
+        t = rng.choice([0.01, 0.1])
+        g = rng.choice([0.0, 0.5, 0.95, 1.05, 5.0]) * t
+        p = (10.0 - g, rng.uniform(-9, 9)) if rng.random() < 0.5 else (rng.uniform(-9, 9), -10.0 + g)
+        cases.append(("closeb", t, p))
+        reqs.append(f"closeb t={rat(t)} areas={area_rows([area])} pt={pt(p)}")
+    allowed = 3
+    import itertools as _it
+
+    for n in range(0, allowed + 3):
+        for tail in ([False], [True]):
+            script = [True] * n + tail
+            cases.append(("driver", allowed, script))
+            reqs.append(f"driver allowed={allowed} script={';'.join(str(int(b)) for b in script)}")
+    resps = ctx.gen.parallel(reqs)
+    for c, req, resp in zip(cases, reqs, resps):
+        res.evaluations += 1
+        r = parse_resp(resp)
+        if c[0] == "snapto":
+            _, t, pts, eps = c
+            try:
+                out, ch = ban.snap_trace_to_another([Point(e) for e in eps], LineString(pts), t)
+                want = ([(F(x), F(y)) for x, y in out.coords], bool(ch))
+            except Exception as e:  # noqa: BLE001
+                res.skipped["impl_raised"] = res.skipped.get("impl_raised", 0) + 1
+                continue
+            got = (parse_line(r["line"]), r["changed"] == "1")
+            res.nontrivial += int(want[1])
+        elif c[0] == "closeb":
+            _, t, p = c
+            want = bool(ban.is_endpoint_close_to_boundary(Point(p), [area], t))
+            got = r["close"] == "1"
+            res.nontrivial += int(want)
+        else:
+            _, allowed_, script = c
+            calls = {"n": 0}
+            orig = ban.snap_traces
+
+            def scripted(traces, snap_threshold, areas=None, final_allowed_loop=False):
+                k = calls["n"]
+                calls["n"] += 1
+                return traces, (script[k] if k < len(script) else False)
+
+            import geopandas as gpd
+
+            ban.snap_traces = scripted
+            try:
+                ban.branches_and_nodes(gpd.GeoSeries([LineString([(0, 0), (1, 1)])]), gpd.GeoSeries([area]), 0.01, allowed_loops=allowed_, already_clipped=True)
+                want = f"calls={calls['n']} loops={calls['n'] - 1}"
+            except RecursionError:
+                want = "err=RecursionError"
+            finally:
+                ban.snap_traces = orig
+            got = resp.strip()
+            res.nontrivial += int("err" in want)
+        if got != want:
+            res.disagreements.append(Disagreement("S06-generated", {"stream": "S06-generated", "request": req}, jsonable(got), jsonable(want), None,
+                                                  "regenerated code (Lean) and the Python code disagree: translator semantics wrong"))
+    res.samples = [{"request": reqs[0][:200], "response": resps[0][:200]}]
+    return res
+
+
+STREAMS = [s06_insert, s06_snappass, s06_perturbed, s06_generated]
 
 
 def replay(ctx, stream, case):
     import_fractopo()
+    if stream == "S06-generated":
+        r = s06_generated(ctx)
+        return r.disagreements[0] if r.disagreements else None
     if stream == "S06-insert":
         from shapely.geometry import LineString, Point
 
